@@ -98,14 +98,24 @@ def check(repo, rep, tier):
     for i, n in enumerate(body):
         if isinstance(n, ast.For) and norm(n.iter) == regname and mentions(n, "sys.modules") and stage1 is None:
             stage1 = (i, n)
-        elif isinstance(n, ast.If) and mentions(n.test, "os.environ") and stage2 is None:
+        elif isinstance(n, ast.If) and stage2 is None and mentions(n, "os.environ") and mentions(n, "import_module"):
             stage2 = (i, n)
         elif isinstance(n, ast.If) and stage2 is not None and stage3 is None and mentions(n.test, "backend") \
-                and not mentions(n.test, "os.environ") and any(isinstance(x, ast.For) for x in ast.walk(n)):
+                and not mentions(n, "os.environ") and any(isinstance(x, ast.For) for x in ast.walk(n)):
             stage3 = (i, n)
     if not (stage1 and stage2 and stage3):
         raise AnalysisError("selection stages not found at module level of pysnark.runtime (stage1=%s stage2=%s stage3=%s)"
                             % (bool(stage1), bool(stage2), bool(stage3)))
+
+    def governing(stage_node, inner):
+        """Conjuncts of every `if` test between the stage statement and `inner` (true arms only)."""
+        out = []
+        chain = [p for p in parents(inner) if isinstance(p, ast.If)]
+        for p in chain + ([stage_node] if stage_node not in chain else []):
+            if p is stage_node or any(q is stage_node for q in parents(p)):
+                t = p.test
+                out += t.values if isinstance(t, ast.BoolOp) and isinstance(t.op, ast.And) else [t]
+        return out
     r2 = rep.rule("R-C19-2", "stage order, guards, paired assignment, first match wins", floor=8)
     loc = lambda n: "%s:%s" % (m.relpath, n.lineno)  # noqa: E731
     if stage1[0] < stage2[0] < stage3[0]:
@@ -115,7 +125,8 @@ def check(repo, rep, tier):
                      "selection stages are not in the order pre-import, environment, auto-detect", "order")
     for label, st in (("environment", stage2), ("auto-detect", stage3)):
         t = st[1].test
-        conj = t.values if isinstance(t, ast.BoolOp) and isinstance(t.op, ast.And) else [t]
+        loops_ = [x for x in ast.walk(st[1]) if isinstance(x, ast.For) and norm(x.iter) == regname]
+        conj = governing(st[1], loops_[0]) if loops_ else (t.values if isinstance(t, ast.BoolOp) and isinstance(t.op, ast.And) else [t])
         if any(norm(c) in ("backend is None", "backend == None", "not backend") for c in conj):
             r2.ok(loc(st[1]), RT, "%s stage guarded by `backend is None`" % label)
         else:
@@ -210,13 +221,17 @@ def check(repo, rep, tier):
         else:
             r3.ok(loc(c), RT, norm(c), "exceptions propagate")
     unk = None
-    for s in stage2[1].body:
+    env_body = stage2[1].body
+    for x in ast.walk(stage2[1]):
+        if isinstance(x, ast.If) and any(isinstance(y, ast.For) and norm(y.iter) == regname for y in x.body):
+            env_body = x.body
+    for s in env_body:
         if isinstance(s, ast.If) and norm(s.test) in ("backend is None", "backend == None", "not backend"):
             if any(isinstance(x, ast.Call) and norm(x.func) in ("print", "warnings.warn", "sys.stderr.write")
                    for b in s.body for x in ast.walk(b)) or any(isinstance(b, ast.Raise) for b in s.body):
                 unk = s
-    lastloop = max([i for i, s in enumerate(stage2[1].body) if isinstance(s, ast.For)] or [-1])
-    if unk is not None and stage2[1].body.index(unk) > lastloop:
+    lastloop = max([i for i, s in enumerate(env_body) if isinstance(s, ast.For)] or [-1])
+    if unk is not None and env_body.index(unk) > lastloop:
         r3.ok(loc(unk), RT, "unknown name reported under `backend is None` after the environment loop")
     else:
         r3.violation(loc(stage2[1]), RT, norm(stage2[1])[:200], "an unknown PYSNARK_BACKEND value is not reported before "
@@ -270,6 +285,25 @@ def check(repo, rep, tier):
                                  nm, a, required[a][0]), "iface/%s/%s" % (nm, a))
         else:
             r5.ok(where, md, "binds " + ", ".join(iface))
+    # R-C19-7: the field in effect is the one the reported name stands for (shared with R-C13-3)
+    r7 = rep.rule("R-C19-7", "derived backends install their field in the module that does the work (shared with C13)", floor=2)
+    from .c13 import moduli
+    from ..report import Rule
+    tmp = Rule("R-C19-7", "")
+    moduli(repo, tmp)
+    for i in tmp.instances:
+        if any(x in i.construct or x in i.term for x in ("backendbellman", "backendbulletproofs", "zkifbellman", "zkifbulletproofs", "set_modulus")):
+            r7.instances.append(i)
+    for nm, md in rows:
+        mm = repo.modules.get(md)
+        if mm is None or not mm.star_imports:
+            continue
+        local = [n for n in mm.tree.body if isinstance(n, ast.Assign) and any(norm(t) in ("modulus", "BL") for t in n.targets)]
+        for n in local:
+            r7.violation("%s:%s" % (mm.relpath, n.lineno), md, norm(n)[:80],
+                         "a derived backend binds `%s` in its own namespace: the star-imported functions (get_modulus, fieldinverse, "
+                         "prove) keep reading the base module's value, so `%s` is reported while the base field is in effect" % (
+                             norm(n.targets[0]), nm), "localfield/%s/%s" % (nm, norm(n.targets[0])))
     # R-C19-6 (informational)
     r6 = rep.rule("R-C19-6", "derived backends act on the base module's state (informational)", floor=0)
     for nm, md in rows:
